@@ -126,6 +126,9 @@ theorem applyOp_spec (s s' : State) (op : HOp) (h : applyOp s op = .ok s') :
   | read o =>
     simp [applyOp] at h; subst h
     exact ⟨rfl, rfl, ⟨[], by simp⟩, fun _ _ h => h, fun h => h⟩
+  | query =>
+    simp [applyOp] at h; subst h
+    exact ⟨rfl, rfl, ⟨[], by simp⟩, fun _ _ h => h, fun h => h⟩
   | create =>
     simp [applyOp] at h; subst h
     have hnone : s.kindAt s.objs.length = none := by simp [State.kindAt]
@@ -516,6 +519,7 @@ def Err.isLimit : Err → Bool
 theorem applyOp_no_limit (s : State) (op : HOp) (e : Err) (h : applyOp s op = .error e) : e.isLimit = false := by
   cases op with
   | read o => simp [applyOp] at h
+  | query => simp [applyOp] at h
   | create => simp [applyOp] at h
   | link a b =>
     simp only [applyOp, applyLink] at h
@@ -897,6 +901,7 @@ theorem applyLink_lk (s s' : State) (a b : Nat) (add : Bool) (h : applyLink s a 
 theorem applyOp_lk (s s' : State) (op : HOp) (h : applyOp s op = .ok s') (hl : LK s) : LK s' := by
   cases op with
   | read o => simp [applyOp] at h; subst h; exact hl
+  | query => simp [applyOp] at h; subst h; exact hl
   | create => simp [applyOp] at h; subst h; exact hl.of_same rfl (fun _ => rfl)
   | link a b => exact applyLink_lk s s' a b true h hl
   | unlink a b => exact applyLink_lk s s' a b false h hl
@@ -1012,5 +1017,306 @@ theorem flushLoop_lk (H : Hooks) (ord : Nat → List Nat → List Nat) (bfuel : 
     · cases hr : round H (ord n) bfuel s with
       | error e => simp [hr] at h
       | ok s1 => simp only [hr] at h; exact ih s1 s' (round_lk H (ord n) bfuel s s1 hl hr) h
+
+/-! ### nested rounds: queries inside after_* hooks -/
+
+theorem runKey_append (p : Kind × Nat) : ∀ (a b : List Event) (st : Bool × Nat),
+    runKey p (a ++ b) st = match runKey p a st with
+      | some st' => runKey p b st'
+      | none => none := by
+  intro a
+  induction a with
+  | nil => intro b st; rfl
+  | cons e t ih =>
+    intro b st
+    simp only [List.cons_append, runKey]
+    cases stepKey p st e with
+    | none => rfl
+    | some st' => exact ih b st'
+
+theorem Balanced.nil : Balanced [] := fun _ _ => rfl
+
+theorem Balanced.append {a b : List Event} (ha : Balanced a) (hb : Balanced b) : Balanced (a ++ b) := by
+  intro p n
+  rw [runKey_append, ha p n]
+  exact hb p n
+
+/-- before-hook entries of a duplicate-free list of (kind, object) pairs -/
+theorem runKey_befores (p : Kind × Nat) : ∀ (Q : List (Kind × Nat)) (a : Bool) (n : Nat), Q.Nodup →
+    runKey p (Q.map evB) (a, n) = if p ∈ Q then (if a then none else some (true, n)) else some (a, n) := by
+  intro Q
+  induction Q with
+  | nil => intro a n _; simp [runKey]
+  | cons q Q ih =>
+    intro a n hnd
+    obtain ⟨hq, hnd'⟩ := List.nodup_cons.mp hnd
+    simp only [List.map_cons, runKey, evB, stepKey]
+    by_cases hqp : q = p
+    · subst hqp
+      cases a with
+      | true => simp
+      | false => simp [ih true n hnd', hq]
+    · have hne : ¬ (q.1, q.2) = p := by simpa using hqp
+      have hne' : ¬ p = q := fun e => hqp e.symm
+      simp only [hne, if_false]
+      rw [ih a n hnd']
+      simp [List.mem_cons, hne']
+
+theorem runKey_stmts (p : Kind × Nat) : ∀ (S : List (Kind × Nat)) (a : Bool) (n : Nat), S.Nodup →
+    runKey p (S.map evS) (a, n) = if p ∈ S then (if a then some (false, n + 1) else none) else some (a, n) := by
+  intro S
+  induction S with
+  | nil => intro a n _; simp [runKey]
+  | cons q S ih =>
+    intro a n hnd
+    obtain ⟨hq, hnd'⟩ := List.nodup_cons.mp hnd
+    simp only [List.map_cons, runKey, evS, stepKey]
+    by_cases hqp : q = p
+    · subst hqp
+      cases a with
+      | true => simp [ih false (n + 1) hnd', hq]
+      | false => simp
+    · have hne : ¬ (q.1, q.2) = p := by simpa using hqp
+      have hne' : ¬ p = q := fun e => hqp e.symm
+      simp only [hne, if_false]
+      rw [ih a n hnd']
+      simp [List.mem_cons, hne']
+
+theorem runKey_links (p : Kind × Nat) (st : Bool × Nat) : ∀ (L : List (Nat × Nat)),
+    runKey p (L.map evLD) st = some st ∧ runKey p (L.map evLI) st = some st := by
+  intro L
+  induction L with
+  | nil => exact ⟨rfl, rfl⟩
+  | cons q L ih => simp [runKey, evLD, evLI, stepKey, ih.1, ih.2]
+
+/-- what the inner flush of a query must guarantee (and what every level of `flushN` does guarantee) -/
+def NestedSpec (f : State → Except Err State) : Prop :=
+  ∀ s s', Inv s → s.saved = [] → f s = .ok s' →
+    Inv s' ∧ s'.saved = [] ∧ ∃ t, s'.trace = s.trace ++ t ∧ Balanced t
+
+theorem applyOpA_spec (nested : State → Except Err State) (hn : NestedSpec nested) (s s' : State) (op : HOp)
+    (hinv : Inv s) (hsv : s.saved = []) (h : applyOpA nested s op = .ok s') :
+    Inv s' ∧ s'.saved = [] ∧ ∃ t, s'.trace = s.trace ++ t ∧ Balanced t := by
+  have plain : ∀ op', applyOp s op' = .ok s' → Inv s' ∧ s'.saved = [] ∧ ∃ t, s'.trace = s.trace ++ t ∧ Balanced t := by
+    intro op' h'
+    obtain ⟨t, v, _, _, i⟩ := applyOp_spec s s' op' h'
+    exact ⟨i hinv, by rw [v, hsv], [], by simp [t], Balanced.nil⟩
+  cases op with
+  | query =>
+    simp only [applyOpA] at h
+    by_cases hm : s.modified = true
+    · simp only [hm, if_true] at h; exact hn s s' hinv hsv h
+    · simp only [hm] at h; injection h with h; subst h
+      exact ⟨hinv, hsv, [], by simp, Balanced.nil⟩
+  | read o => exact plain _ (by simpa [applyOpA] using h)
+  | modify o => exact plain _ (by simpa [applyOpA] using h)
+  | create => exact plain _ (by simpa [applyOpA] using h)
+  | link a b => exact plain _ (by simpa [applyOpA] using h)
+  | unlink a b => exact plain _ (by simpa [applyOpA] using h)
+  | linkNewOwner b => exact plain _ (by simpa [applyOpA] using h)
+  | linkNewItem a => exact plain _ (by simpa [applyOpA] using h)
+
+theorem runOpsA_spec (nested : State → Except Err State) (hn : NestedSpec nested) (ops : List HOp) :
+    ∀ (s s' : State), Inv s → s.saved = [] → runOpsA nested ops s = .ok s' →
+      Inv s' ∧ s'.saved = [] ∧ ∃ t, s'.trace = s.trace ++ t ∧ Balanced t := by
+  induction ops with
+  | nil => intro s s' hinv hsv h; simp [runOpsA] at h; subst h; exact ⟨hinv, hsv, [], by simp, Balanced.nil⟩
+  | cons op rest ih =>
+    intro s s' hinv hsv h
+    simp only [runOpsA] at h
+    cases ha : applyOpA nested s op with
+    | error e => simp [ha] at h
+    | ok s1 =>
+      simp only [ha] at h
+      obtain ⟨i1, v1, t1, e1, b1⟩ := applyOpA_spec nested hn s s1 op hinv hsv ha
+      obtain ⟨i2, v2, t2, e2, b2⟩ := ih s1 s' i1 v1 h
+      exact ⟨i2, v2, t1 ++ t2, by rw [e2, e1, List.append_assoc], b1.append b2⟩
+
+/-- the after-phase with nested flushes: from any automaton state in which exactly the statements of `sv` (once each) are waiting
+    on top of `n` others, the trace brings the automaton back to `n` -/
+theorem afterLoopA_spec (nested : State → Except Err State) (hn : NestedSpec nested) (H : Hooks) :
+    ∀ (sv : List (Nat × Kind)) (s s' : State), Inv s → s.saved = [] → (sv.map (fun q => (q.2, q.1))).Nodup →
+      afterLoopA nested H sv s = .ok s' →
+      Inv s' ∧ s'.saved = [] ∧ ∃ t, s'.trace = s.trace ++ t ∧
+        ∀ p n, runKey p t (false, n + (if p ∈ sv.map (fun q => (q.2, q.1)) then 1 else 0)) = some (false, n) := by
+  intro sv
+  induction sv with
+  | nil =>
+    intro s s' hinv hsv _ h
+    simp [afterLoopA] at h; subst h
+    exact ⟨hinv, hsv, [], by simp, fun p n => by simp [runKey]⟩
+  | cons q rest ih =>
+    intro s s' hinv hsv hnd h
+    obtain ⟨o, k⟩ := q
+    obtain ⟨hq, hnd'⟩ := List.nodup_cons.mp hnd
+    simp only [afterLoopA] at h
+    cases hr : runOpsA nested (H.after k { s with trace := s.trace ++ [Event.after k o] } o) { s with trace := s.trace ++ [Event.after k o] } with
+    | error e => simp [hr] at h
+    | ok s2 =>
+      simp only [hr] at h
+      have hinv1 : Inv ({ s with trace := s.trace ++ [Event.after k o] } : State) := hinv.of_same rfl rfl rfl
+      obtain ⟨i2, v2, t2, e2, b2⟩ := runOpsA_spec nested hn _ _ s2 hinv1 hsv hr
+      obtain ⟨i3, v3, t3, e3, b3⟩ := ih s2 s' i2 v2 hnd' h
+      refine ⟨i3, v3, [Event.after k o] ++ t2 ++ t3, by rw [e3, e2]; simp [List.append_assoc], ?_⟩
+      intro p n
+      rw [runKey_append, runKey_append]
+      by_cases hp : p = (k, o)
+      · subst hp
+        have hnot : (k, o) ∉ rest.map (fun q => (q.2, q.1)) := hq
+        simp only [List.map_cons, List.mem_cons, true_or, if_true]
+        have h1 : runKey (k, o) [Event.after k o] (false, n + 1) = some (false, n) := by simp [runKey, stepKey]
+        rw [h1]; simp only
+        rw [b2 (k, o) n]; simp only
+        have := b3 (k, o) n
+        simpa [hnot] using this
+      · have hmem : (p ∈ ((o, k) :: rest).map (fun q => (q.2, q.1))) ↔ (p ∈ rest.map (fun q => (q.2, q.1))) := by
+          simp only [List.map_cons, List.mem_cons]
+          constructor
+          · rintro (h | h)
+            · exact absurd h hp
+            · exact h
+          · exact Or.inr
+        have hne : ¬ (k, o) = p := fun e => hp e.symm
+        have h1 : ∀ st, runKey p [Event.after k o] st = some st := by intro st; simp [runKey, stepKey, hne]
+        rw [h1]; simp only
+        by_cases hin : p ∈ rest.map (fun q => (q.2, q.1))
+        · have hin' : p ∈ ((o, k) :: rest).map (fun q => (q.2, q.1)) := hmem.mpr hin
+          simp only [hin', if_true]
+          rw [b2 p (n + 1)]; simp only
+          have := b3 p n
+          simpa [hin] using this
+        · have hin' : ¬ p ∈ ((o, k) :: rest).map (fun q => (q.2, q.1)) := fun e => hin (hmem.mp e)
+          simp only [hin', if_false, Nat.add_zero]
+          rw [b2 p n]; simp only
+          have := b3 p n
+          simpa [hin] using this
+
+theorem nodup_keysL (s : State) (l : List Nat) (hl : l.Nodup) : (keysL s l).Nodup := by
+  induction l with
+  | nil => simp [keysL]
+  | cons o rest ih =>
+    obtain ⟨ho, hr⟩ := List.nodup_cons.mp hl
+    simp only [keysL, List.filterMap_cons]
+    cases hk : s.kindAt o with
+    | none => simpa [keysL] using ih hr
+    | some k =>
+      simp only [Option.map_some]
+      refine List.nodup_cons.mpr ⟨?_, by simpa [keysL] using ih hr⟩
+      intro hm
+      simp only [List.mem_filterMap] at hm
+      obtain ⟨o', ho', he⟩ := hm
+      cases hk' : s.kindAt o' with
+      | none => simp [hk'] at he
+      | some k' => simp [hk'] at he; exact ho (he.2 ▸ ho')
+
+theorem roundA_spec (nested : State → Except Err State) (hn : NestedSpec nested) (H : Hooks) (ord : State → List Nat → List Nat)
+    (bfuel : Nat) (s s' : State) (hinv : Inv s) (hsv : s.saved = []) (hperm : ∀ st l, (ord st l).Perm l)
+    (h : roundA nested H ord bfuel s = .ok s') :
+    Inv s' ∧ s'.saved = [] ∧ ∃ t, s'.trace = s.trace ++ t ∧ Balanced t := by
+  simp only [roundA] at h
+  cases hb : beforeLoop H bfuel 0 s with
+  | error e => simp [hb] at h
+  | ok s1 =>
+    simp only [hb] at h
+    obtain ⟨hinv1, hsv1, _, _, ht1⟩ := beforeLoop_spec H bfuel 0 s s1 hinv hb
+    have hinvc : Inv (calcAndRemoveM2m s1) := hinv1.of_same rfl rfl rfl
+    obtain ⟨s2, hsave, hq2, ht2, hsv2, hk2, hd2⟩ := savePhase_spec (ord s1) (hperm s1) (calcAndRemoveM2m s1) hinvc
+    have hlk2 : s2.lk = (calcAndRemoveM2m s1).lk := saveAll_lk _ _ _ hsave
+    simp only [hsave] at h
+    have hinv3 : Inv ({ (addM2m s2) with queue := [], modified := false, saved := [] } : State) := by
+      refine ⟨?_, by simp [pendingList], ?_, by simp⟩
+      · intro o
+        have : ({ (addM2m s2) with queue := [], modified := false, saved := [] } : State).kindAt o = none := hk2 o
+        simp [this]
+      · intro p ob hob hpos
+        have := hd2 p ob hob
+        omega
+    have hpendAll : ∀ o ∈ pendingList s1, ∃ k, s1.kindAt o = some k :=
+      fun o ho => (hinv1.mem_iff o).mp ((mem_pendingList s1 o).mp ho)
+    have hS : (keysL s1 (ord s1 (pendingList s1))).Nodup := nodup_keysL s1 _ ((hperm s1 _).nodup_iff.mpr hinv1.nodup)
+    have hQ : (keysL s1 (pendingList s1)).Nodup := nodup_keysL s1 _ hinv1.nodup
+    have hPerm : (keysL s1 (ord s1 (pendingList s1))).Perm (keysL s1 (pendingList s1)) := (hperm s1 _).filterMap _
+    have esv : (addM2m s2).saved = (keysL s1 (ord s1 (pendingList s1))).map (fun p => (p.2, p.1)) := by
+      have e2 : (addM2m s2).saved = s2.saved := rfl
+      have e5 : (calcAndRemoveM2m s1).saved = s1.saved := rfl
+      have e6 : keysL (calcAndRemoveM2m s1) (ord s1 (pendingList (calcAndRemoveM2m s1))) = keysL s1 (ord s1 (pendingList s1)) := rfl
+      rw [e2, hsv2, e5, e6, hsv1, hsv]; simp
+    have hkeys : ((addM2m s2).saved.map (fun q => (q.2, q.1))) = keysL s1 (ord s1 (pendingList s1)) := by
+      rw [esv, List.map_map]; simp [Function.comp_def]
+    obtain ⟨hinv', hsv', t, et, bt⟩ := afterLoopA_spec nested hn H _ _ s' hinv3 rfl (by rw [hkeys]; exact hS) h
+    refine ⟨hinv', hsv', (keysL s1 (pendingList s1)).map evB ++ s1.lk.pendRem.map evLD ++ (keysL s1 (ord s1 (pendingList s1))).map evS
+              ++ s1.lk.pendAdd.map evLI ++ t, ?_, ?_⟩
+    · rw [et]
+      have e1 : (addM2m s2).trace = s2.trace ++ s2.lk.m2mAdd.map evLI := rfl
+      have e3 : (calcAndRemoveM2m s1).trace = s1.trace ++ s1.lk.pendRem.map evLD := rfl
+      have e4 : (calcAndRemoveM2m s1).lk.m2mAdd = s1.lk.pendAdd := rfl
+      have e6 : keysL (calcAndRemoveM2m s1) (ord s1 (pendingList (calcAndRemoveM2m s1))) = keysL s1 (ord s1 (pendingList s1)) := rfl
+      show (addM2m s2).trace ++ t = _
+      rw [e1, ht2, e3, hlk2, e4, e6, ht1]
+      simp only [List.drop_zero, keysOf_eq_keysL, List.append_assoc]
+      rfl
+    · intro p n
+      rw [runKey_append, runKey_append, runKey_append, runKey_append, runKey_befores p _ false n hQ]
+      by_cases hp : p ∈ keysL s1 (pendingList s1)
+      · have hp' : p ∈ keysL s1 (ord s1 (pendingList s1)) := hPerm.mem_iff.mpr hp
+        simp only [hp, if_true, Bool.false_eq_true, if_false]
+        rw [(runKey_links p _ _).1]; simp only
+        rw [runKey_stmts p _ true n hS]; simp only [hp', if_true]
+        rw [(runKey_links p _ _).2]; simp only
+        have := bt p n
+        rw [hkeys] at this
+        simpa [hp'] using this
+      · have hp' : ¬ p ∈ keysL s1 (ord s1 (pendingList s1)) := fun e => hp (hPerm.mem_iff.mp e)
+        simp only [hp, if_false]
+        rw [(runKey_links p _ _).1]; simp only
+        rw [runKey_stmts p _ false n hS]; simp only [hp', if_false]
+        rw [(runKey_links p _ _).2]; simp only
+        have := bt p n
+        rw [hkeys] at this
+        simpa [hp'] using this
+
+theorem flushLoopA_spec (nested : State → Except Err State) (hn : NestedSpec nested) (H : Hooks) (ord : State → List Nat → List Nat)
+    (bfuel : Nat) (hperm : ∀ st l, (ord st l).Perm l) :
+    ∀ (n : Nat) (s s' : State), Inv s → s.saved = [] → flushLoopA nested H ord bfuel n s = .ok s' →
+      Inv s' ∧ s'.saved = [] ∧ s'.modified = false ∧ ∃ t, s'.trace = s.trace ++ t ∧ Balanced t := by
+  intro n
+  induction n with
+  | zero =>
+    intro s s' hinv hsv h
+    simp only [flushLoopA] at h
+    by_cases hm : s.modified = true
+    · simp [hm] at h
+    · simp [hm] at h; subst h
+      exact ⟨hinv, hsv, by simpa using hm, [], by simp, Balanced.nil⟩
+  | succ n ih =>
+    intro s s' hinv hsv h
+    simp only [flushLoopA] at h
+    by_cases hm : s.modified = true
+    · simp only [hm, Bool.not_true, Bool.false_eq_true, if_false] at h
+      cases hr : roundA nested H ord bfuel s with
+      | error e => simp [hr] at h
+      | ok s1 =>
+        simp only [hr] at h
+        obtain ⟨i1, v1, t1, e1, b1⟩ := roundA_spec nested hn H ord bfuel s s1 hinv hsv hperm hr
+        obtain ⟨i2, v2, m2, t2, e2, b2⟩ := ih s1 s' i1 v1 h
+        exact ⟨i2, v2, m2, t1 ++ t2, by rw [e2, e1, List.append_assoc], b1.append b2⟩
+    · have hm' : s.modified = false := by simpa using hm
+      simp [hm'] at h; subst h
+      exact ⟨hinv, hsv, hm', [], by simp, Balanced.nil⟩
+
+theorem flushN_spec (H : Hooks) (ord : State → List Nat → List Nat) (bfuel : Nat) (hperm : ∀ st l, (ord st l).Perm l) :
+    ∀ (d : Nat) (s s' : State), Inv s → s.saved = [] → flushN H ord bfuel d s = .ok s' →
+      Inv s' ∧ s'.saved = [] ∧ s'.modified = false ∧ ∃ t, s'.trace = s.trace ++ t ∧ Balanced t := by
+  intro d
+  induction d with
+  | zero => intro s s' _ _ h; simp [flushN] at h
+  | succ d ih =>
+    intro s s' hinv hsv h
+    simp only [flushN] at h
+    have hn : NestedSpec (flushN H ord bfuel d) := by
+      intro a a' ha hs hf
+      obtain ⟨i, v, _, t, e, b⟩ := ih a a' ha hs hf
+      exact ⟨i, v, t, e, b⟩
+    exact flushLoopA_spec _ hn H ord bfuel hperm 50 s s' hinv hsv h
 
 end PonyVerif.Model.Hooks
